@@ -8,6 +8,8 @@ sys.path.insert(0, "/repo")
 sys.path.insert(0, os.path.dirname(os.path.abspath(__file__)))
 os.environ.setdefault("PYTHONHASHSEED", "0")
 
+import warnings
+warnings.simplefilter("ignore")
 import common  # noqa: E402
 
 
